@@ -35,7 +35,8 @@ ASSUMPTIONS = [
     "optional slot with a handler contributes an entry holding the tree's "
     "value (None / [])",
 ]
-FLOORS = {"quick": {"handler_calls_checked": 30000, "error_maps": 6000},
+FLOORS = {"quick": {"handler_calls_checked": 30000, "error_maps": 6000,
+                    "with_overrides": 300},
           "thorough": {"handler_calls_checked": 2000000,
                        "error_maps": 1500000}}
 N_MODELS = {"quick": 2400, "thorough": 60000}
@@ -213,6 +214,60 @@ def judge(ctx, p, rng):
                                                "/".join(flavour)))
 
 
+def judge_with_overrides(ctx, p, rng):
+    """The same text loaded with overrides: the composite handler must be
+    the one the *edited* text denotes (entries of sections an override
+    path runs through included)."""
+    from ..gen import overrides, texts
+    from ..ref import refmatch
+    res = ctx.res
+    if p.exp[0] != "accept" or p.obs[0] != "ok" or \
+            not overrides.section_children(p.tree):
+        return
+    specs, infos = overrides.gen_specs(rng, p.res, p.tree)
+    if any(i.get("badvalue") or i.get("badkey") or i.get("missing")
+           for i in infos):
+        return
+    try:
+        edited = texts.render(overrides.apply_overrides(p.res, p.tree,
+                                                        specs))
+    except overrides.NoSuchSection:
+        return
+    exp = refmatch.conform(p.res, edited)
+    if exp[0] != "accept":
+        return
+    obs = outcome.load_text(p.schema, p.text, overrides=specs)
+    if obs[0] != "ok":
+        return            # C14's subject
+    res.evaluations += 1
+    res.count("with_overrides")
+    config, handler, _ = obs[3]
+    entries = exp[2]
+    case = dict(p.case(), overrides=specs)
+    n = len(handler)
+    if n != len(entries):
+        res.violate("len-differs-with-overrides", case, len(entries), n,
+                    detail="overrides=%r text=%r" % (specs, p.text))
+        return
+    calls = []
+    mapping = {}
+    for h, _v in entries:
+        mapping[h] = (lambda v, h=h: calls.append((h, v)))
+    try:
+        handler(mapping)
+    except Exception as e:  # noqa
+        res.violate("complete-map-raised-with-overrides", case, "ok",
+                    "%s: %s" % (type(e).__name__, e))
+        return
+    got = [[k, outcome.canon_value(v)] for k, v in calls]
+    if got != [list(x) for x in entries]:
+        res.violate("call-trace-differs-with-overrides", case,
+                    [list(x) for x in entries][:8], got[:8],
+                    detail="overrides=%r text=%r" % (specs, p.text))
+    else:
+        res.count("handler_calls_checked", len(calls))
+
+
 def fault_plan(rng):
     return 0 if rng.random() < 0.85 else 1
 
@@ -225,6 +280,8 @@ def run_shard(ctx):
                       handler_density=0.2 + 0.6 * dens.random(),
                       fault_plan=fault_plan, p_bad_value=0.0):
         judge(ctx, p, rng)
+        if rng.random() < 0.4:
+            judge_with_overrides(ctx, p, rng)
 
 
 def replay(ctx, case):
